@@ -75,7 +75,7 @@ func genTmpl(r *vk.RNG, allowFail, allowTyped bool) Tmpl {
 				return fmt.Sprint(float64(b)), true
 			}},
 			{`{{ urldecode "%zz" }}`, func(e *Ent) (string, bool) { return "", false }},
-			{`{{ index .` + l2 + ` 99 }}`, func(e *Ent) (string, bool) { return "", false }},
+			{`{{ index .` + l2 + ` 9999999 }}`, func(e *Ent) (string, bool) { return "", false }},
 		}
 		f := vk.Pick(r, fails)
 		for !allowTyped && (strings.Contains(f.text, "| duration") || strings.Contains(f.text, "| bytes")) {
@@ -200,12 +200,13 @@ func genC07Records(r *vk.RNG, n int, coloured bool) *Dataset {
 	return d
 }
 
-func genNameOrMatchers(r *vk.RNG) []nameOrMatcher {
+// extraLabels/extraVals: labels produced by a parser stage (e.g. numbers and booleans from | json)
+func genNameOrMatchers(r *vk.RNG, extraLabels, extraVals []string) []nameOrMatcher {
 	n := r.Range(1, 3)
 	used := map[string]bool{}
 	var out []nameOrMatcher
 	for len(out) < n {
-		k := vk.Pick(r, append([]string{"nosuch", "app"}, c07Labels...))
+		k := vk.Pick(r, append(append([]string{"nosuch", "app"}, c07Labels...), extraLabels...))
 		if used[k] {
 			continue
 		}
@@ -214,7 +215,9 @@ func genNameOrMatchers(r *vk.RNG) []nameOrMatcher {
 			op := vk.Pick(r, allStrOps)
 			v := vk.Pick(r, []string{"prod", "", "dev", "p.*", ".*", "x"})
 			if op == logql.OpEq || op == logql.OpNotEq {
-				v = vk.Pick(r, c07Vals[:6])
+				v = vk.Pick(r, append(append([]string{}, c07Vals[:6]...), extraVals...))
+			} else if len(extraVals) > 0 && r.Bool() {
+				v = vk.Pick(r, []string{"2..", "4..|5..", "t.*", "[0-9.]+", "f.+"})
 			}
 			out = append(out, nameOrMatcher{M: &selMatcher{Label: k, Op: op, OpS: opText(op), Value: v}})
 		} else {
@@ -222,6 +225,14 @@ func genNameOrMatchers(r *vk.RNG) []nameOrMatcher {
 		}
 	}
 	return out
+}
+
+// typedVals: values that parser-produced labels take (numbers, booleans as | json exposes them)
+func typedVals(d *Dataset) []string {
+	if len(d.Fields) == 0 {
+		return nil
+	}
+	return []string{"200", "404", "500", "0", "-3", "1.5", "42", "true", "false", "info", "error"}
 }
 
 func genRewriteStage(r *vk.RNG, d *Dataset, allowFail, first bool) Stage {
@@ -255,9 +266,9 @@ func genRewriteStage(r *vk.RNG, d *Dataset, allowFail, first bool) Stage {
 	case 2, 3:
 		return stLineFormat(genTmpl(r, allowFail, first))
 	case 4:
-		return stDrop(genNameOrMatchers(r))
+		return stDrop(genNameOrMatchers(r, d.Fields, typedVals(d)))
 	case 5:
-		return stKeep(genNameOrMatchers(r))
+		return stKeep(genNameOrMatchers(r, d.Fields, typedVals(d)))
 	default:
 		return stDecolorize(d.strip)
 	}
@@ -281,6 +292,15 @@ func runC07(r *vk.Run) {
 		coloured := rng.Chance(1, 4)
 		ds := genC07Records(rng, n, coloured)
 		q := LogQ{Sel: []selMatcher{{Label: "app", Op: logql.OpEq, OpS: "=", Value: "x"}}}
+		if !coloured && rng.Chance(1, 4) {
+			// labels of non-string type: numbers and booleans extracted by | json, then dropped / kept by value
+			ds = genDataset(rng, "json", n, logT0)
+			for i := range ds.Recs {
+				ds.Recs[i].Labels["app"] = "x"
+			}
+			q.Stages = append(q.Stages, stJSONAll(ds.docOf))
+			c.Count("typed_label_pipelines", 1)
+		}
 		k := rng.Range(1, 3)
 		unknown, undecided := 0, 0
 		for i := 0; i < k; i++ {
